@@ -54,6 +54,8 @@ type pcase struct {
 	errText []string // texts (one for plain kinds, the parts' own texts for multi)
 	partS   []bool   // multi: which part wraps the sentinel
 	opubOk  bool
+	appWhere string      // kind pqc: "in" (context carried in with the message) | "h" (set by the handler before it fails)
+	appKV    [][2]string // application values stored in the message context under plain STRING keys
 	seq     string // kind pqf: the answers ("1"/"0") the scripted stateful filter still has when this message arrives
 	pqf     bool
 }
@@ -164,6 +166,9 @@ func (c *pcase) req() string {
 	po := "ok"
 	if c.pubFail != "" {
 		po = "fail:" + wh.HexS(c.pubFail[1:])
+		if c.pubFail[0] == 'p' {
+			po = "panic:" + wh.HexS(c.pubFail[1:])
+		}
 	}
 	op := "-"
 	if c.mode == "rt" {
@@ -172,8 +177,15 @@ func (c *pcase) req() string {
 			op = "ok"
 		}
 	}
+	if c.appWhere != "" {
+		kind = "pqc"
+	}
+	tail := ""
+	if c.appWhere != "" {
+		tail = " " + c.appWhere + ":" + pairs(c.appKV)
+	}
 	return strings.Join([]string{kind, c.mode, wh.HexS(c.ptopic), filter, po, wh.HexS(c.ctxT), wh.HexS(c.ctxH), wh.HexS(c.ctxS),
-		wh.HexS(c.uuid), wh.Hex(c.payload), wh.Meta(c.meta), pairs(c.sets), strconv.Itoa(c.nouts), e, op}, " ")
+		wh.HexS(c.uuid), wh.Hex(c.payload), wh.Meta(c.meta), pairs(c.sets), strconv.Itoa(c.nouts), e, op}, " ") + tail
 }
 
 // ---------------------------------------------------------------- scripted fakes
@@ -197,6 +209,7 @@ type recPub struct {
 	consumed *message.Message
 	byUUID   map[string]pubScript
 	hook     func(m *message.Message) // called inside Publish, outside the lock (forced interleavings)
+	panicVal string                   // non-empty: Publish panics with this value (after recording the call)
 }
 
 type pubScript struct {
@@ -248,14 +261,29 @@ func (p *recPub) Publish(topic string, msgs ...*message.Message) error {
 		}
 		p.recs = append(p.recs, pubRec{topic, m.UUID, append([]byte{}, m.Payload...), md, m == consumed, !settled(consumed)})
 	}
+	if p.panicVal != "" {
+		panic(p.panicVal)
+	}
 	return fail
 }
 func (p *recPub) Close() error { return nil }
 
 func (p *recPub) reset(consumed *message.Message, fail error) {
 	p.mu.Lock()
-	p.recs, p.calls, p.fail, p.consumed, p.byUUID, p.hook = nil, 0, fail, consumed, nil, nil
+	p.recs, p.calls, p.fail, p.consumed, p.byUUID, p.hook, p.panicVal = nil, 0, fail, consumed, nil, nil, ""
 	p.mu.Unlock()
+}
+
+// script: like reset, for a case (a publisher that fails with an error, or panics)
+func (p *recPub) script(consumed *message.Message, c *pcase) error {
+	perr := c.pubErr()
+	p.reset(consumed, perr)
+	if c.pubFail != "" && c.pubFail[0] == 'p' {
+		p.mu.Lock()
+		p.panicVal = c.pubFail[1:]
+		p.mu.Unlock()
+	}
+	return perr
 }
 
 func (p *recPub) pair(scripts map[string]pubScript, hook func(m *message.Message)) {
@@ -342,7 +370,18 @@ func (c *pcase) message() *message.Message {
 	for k, v := range c.meta {
 		m.Metadata.Set(k, v)
 	}
+	if c.appWhere == "in" {
+		m.SetContext(appCtx(context.Background(), c.appKV))
+	}
 	return m
+}
+
+// appCtx stores application values under plain string keys (as logging / tracing helpers commonly do).
+func appCtx(ctx context.Context, kvs [][2]string) context.Context {
+	for _, kv := range kvs {
+		ctx = context.WithValue(ctx, kv[0], kv[1]) //nolint:staticcheck // string keys on purpose
+	}
+	return ctx
 }
 
 func outMsgs(n int) []*message.Message {
@@ -363,6 +402,9 @@ func (c *pcase) handlerFunc(hi *herrInfo) message.HandlerFunc {
 	return func(m *message.Message) ([]*message.Message, error) {
 		for _, kv := range c.sets {
 			m.Metadata.Set(kv[0], kv[1])
+		}
+		if c.appWhere == "h" {
+			m.SetContext(appCtx(m.Context(), c.appKV))
 		}
 		return outMsgs(c.nouts), hi.err
 	}
@@ -452,7 +494,7 @@ func (p *recPub) renderSel(sel func(pubRec) bool) string {
 }
 
 func (c *pcase) pubErr() error {
-	if c.pubFail == "" {
+	if c.pubFail == "" || c.pubFail[0] == 'p' {
 		return nil
 	}
 	return errors.New(c.pubFail[1:])
@@ -468,8 +510,7 @@ func runSA(c *pcase) (obs string) {
 			obs = pub.render() + " O:- E:" + wh.PanicText(r) + " A:" + wh.Meta(msg.Metadata) + " S:-"
 		}
 	}()
-	perr := c.pubErr()
-	pub.reset(msg, perr)
+	perr := pub.script(msg, c)
 	ctl := &filterCtl{}
 	mw, err := c.middleware(pub, ctl)
 	if err != nil {
@@ -511,6 +552,7 @@ type script struct {
 	reached chan struct{} // closed when the handler is about to block
 	seen    bool
 	seenErr error
+	seenPanic string
 }
 
 const settleTimeout = 30 * time.Second
@@ -550,6 +592,16 @@ func newRT(protos []*pcase, handlerLevel bool) (*rtEnv, error) {
 	// the observer sits outside the poison middleware and sees what it returns to the Router
 	observer := func(h message.HandlerFunc) message.HandlerFunc {
 		return func(m *message.Message) ([]*message.Message, error) {
+			defer func() {
+				if r := recover(); r != nil { // note the panic that leaves the poison middleware and let it go on to the Router
+					if sc := e.script(m); sc != nil {
+						e.mu.Lock()
+						sc.seenPanic, sc.seen = wh.PanicText(r), true
+						e.mu.Unlock()
+					}
+					panic(r)
+				}
+			}()
 			outs, err := h(m)
 			if sc := e.script(m); sc != nil {
 				e.mu.Lock()
@@ -616,8 +668,11 @@ func waitSettle(m *message.Message) string {
 
 func (e *rtEnv) errSeen(sc *script, perr error) string {
 	e.mu.Lock()
-	seen, ret := sc.seen, sc.seenErr
+	seen, ret, pan := sc.seen, sc.seenErr, sc.seenPanic
 	e.mu.Unlock()
+	if pan != "" {
+		return pan
+	}
 	if !seen {
 		return "other:" + wh.HexS("middleware did not return")
 	}
@@ -654,8 +709,7 @@ func (p *recPub) recsFrom(i int) []pubRec {
 // run: one message through handler number h, alone.
 func (e *rtEnv) run(c *pcase, h int) string {
 	msg := c.message()
-	perr := c.pubErr()
-	e.ppub.reset(msg, perr)
+	perr := e.ppub.script(msg, c)
 	e.opub.reset(msg, opubErr(c))
 	sc := e.register(c, msg)
 	before := e.ctl.n()
@@ -675,8 +729,7 @@ func (e *rtEnv) run(c *pcase, h int) string {
 // runSA: the same middleware value called directly (no Router context on the message).
 func (e *rtEnv) runSA(c *pcase) (obs string) {
 	msg := c.message()
-	perr := c.pubErr()
-	e.ppub.reset(msg, perr)
+	perr := e.ppub.script(msg, c)
 	sc := e.register(c, msg)
 	defer func() {
 		if r := recover(); r != nil {
@@ -919,6 +972,62 @@ func longText(r *wh.Rng, n int) string {
 	}
 	sb.WriteString("cause#" + strconv.Itoa(10+r.Intn(90)))
 	return sb.String()
+}
+
+// genAppCtx: the message context holds application values under plain string keys, among them the very strings the
+// Router uses for ITS (typed) keys; genPanic: the poison publisher panics instead of returning an error.
+var appKeys = []string{"handler_name", "subscribe_topic", "subscriber_name", "publisher_name", "publish_topic", "trace_id", ""}
+
+func (c *pcase) fillApp(rng *wh.Rng, where string) {
+	c.appWhere = where
+	c.appKV = nil
+	for _, k := range appKeys {
+		if rng.Intn(3) > 0 {
+			c.appKV = append(c.appKV, [2]string{k, "app-" + rndStr(rng, 5)})
+		}
+	}
+	if len(c.appKV) == 0 {
+		c.appKV = [][2]string{{"handler_name", "app-handler"}}
+	}
+}
+
+func genAppCtxAndPanic(out *wh.Out, rng *wh.Rng, n int) {
+	kinds := []string{"new", "sentinel", "multi", "nil", "wrapw"}
+	for i := 0; i < n; i++ {
+		c := rndCase(rng, "sa", kinds[i%len(kinds)])
+		c.ptopic = "poison-" + rndStr(rng, 3)
+		c.fillFilter(rng, []string{"all", "fall", "is", "none"}[rng.Intn(4)])
+		if i%2 == 0 {
+			c.fillApp(rng, []string{"in", "h"}[(i/2)%2])
+			out.Count("app_context_string_keys")
+		} else {
+			c.pubFail = "p" + "publisher blew up " + rndStr(rng, 4)
+			out.Count("poison_publisher_panics")
+		}
+		obs := runSA(c)
+		out.Case(c.req(), obs)
+		count(out, c, obs)
+	}
+	for _, level := range []bool{false, true} {
+		proto := &pcase{ptopic: "poison-" + rndStr(rng, 3), filter: "all", ctxT: "in-app", ctxH: "h-app", ctxS: "sub.app"}
+		env := rtSetup(out, []*pcase{proto}, level)
+		for i := 0; i < n/2+2; i++ {
+			c := rndCase(rng, "rt", kinds[i%len(kinds)])
+			c.ptopic, c.filter, c.ctxT, c.ctxH, c.ctxS = proto.ptopic, proto.filter, proto.ctxT, proto.ctxH, proto.ctxS
+			c.opubOk = rng.Intn(4) > 0
+			if i%2 == 0 {
+				c.fillApp(rng, []string{"in", "h"}[(i/2)%2])
+				out.Count("app_context_string_keys")
+			} else {
+				c.pubFail = "p" + "publisher blew up " + rndStr(rng, 4)
+				out.Count("poison_publisher_panics")
+			}
+			obs := env.run(c, 0)
+			out.Case(c.req(), obs)
+			count(out, c, obs)
+		}
+		env.close()
+	}
 }
 
 // genLong: long error texts through every filter family, stand-alone and inside a Router
@@ -1477,6 +1586,13 @@ func parseCase(f []string) *pcase {
 	if strings.HasPrefix(f[3], "fail:") {
 		c.pubFail = "x" + unhex(f[3][5:])
 	}
+	if strings.HasPrefix(f[3], "panic:") {
+		c.pubFail = "p" + unhex(f[3][6:])
+	}
+	if len(f) > 14 { // kind pqc
+		w := strings.SplitN(f[14], ":", 2)
+		c.appWhere, c.appKV = w[0], parsePairs(w[1])
+	}
 	if f[8] != "-" {
 		c.payload = []byte(unhex(f[8]))
 	}
@@ -1525,7 +1641,7 @@ func replay(out *wh.Out, line string) {
 			o = "err"
 		}
 		out.Case(line, o)
-	case len(f) == 15 && (f[0] == "pq" || f[0] == "pqf"):
+	case (len(f) == 15 && (f[0] == "pq" || f[0] == "pqf")) || (len(f) == 16 && f[0] == "pqc"):
 		c := parseCase(f[1:])
 		if c.mode == "sa" {
 			out.Case(c.req(), runSA(c))
@@ -1572,6 +1688,7 @@ func main() {
 		nLong = 240
 	}
 	genLong(out, rng, nLong)
+	genAppCtxAndPanic(out, rng, nLong)
 	genSeq(out, rng, 12*reps)
 	genPQ2(out, rng, 2*reps)
 }
